@@ -409,7 +409,7 @@ func c13Run(t *rapid.T) {
 	for op := 0; op < nops; op++ {
 		i := uni(t, "prog", nprog)
 		j := uni(t, "variant", nvar)
-		kind := uni(t, "op", 16)
+		kind := uni(t, "op", 17)
 		switch kind {
 		case 0:
 			cacheOn = !cacheOn
@@ -577,6 +577,36 @@ func c13Run(t *rapid.T) {
 			count("c13_op_page_layout", 1)
 			if a != b {
 				violate(t, "C13", "same-template-same-data-same-result", "c13:result-differs:page+layout", det(fmt.Sprintf("page+layout of program %d with data variant %d gave\n  %s\nand then\n  %s", i, j, a, b)))
+			}
+		case 15:
+			// the same context object used for two executions in a row (what the first
+			// leaves behind is data of the second): the PAIR must be reproducible
+			hist = append(hist, fmt.Sprintf("Exec(prog %d) twice with ONE context, data %d", i, j))
+			run := func() (string, error, *Runtime) {
+				rt := newRT(i, j)
+				ctx := plush.NewContextWith(rt.contextData())
+				tm, err := plush.NewTemplate(progs[i].text)
+				if err != nil {
+					return "", err, rt
+				}
+				o1, err := safeExec(tm, ctx)
+				if err != nil {
+					return "", err, rt
+				}
+				o2, err := safeExec(tm, ctx)
+				return o1 + "¦" + o2, err, rt
+			}
+			savedP := simrt.MapOrder()
+			simrt.SetMapOrder(simrt.Canonical, 0)
+			o1, e1, r1 := run()
+			simrt.SetMapOrder(savedP, uint64(op)+1)
+			o2, e2, r2 := run()
+			a, b := result(o1, e1, r1), result(o2, e2, r2)
+			execs++
+			count("c13_executions", 2)
+			count("c13_op_same_context_twice", 1)
+			if a != b {
+				violate(t, "C13", "same-template-same-data-same-result", "c13:result-differs:same-context-twice", det(fmt.Sprintf("two executions of program %d with one context (data variant %d) gave\n  %s\nand, repeated from scratch,\n  %s", i, j, a, b)))
 			}
 		default:
 			// an execution that fails half-way (injected fault) leaves no trace
